@@ -65,6 +65,24 @@ CLAIMED = {
             "Trusts the hand-written literal packer and integer arithmetic; reported address text is compared by "
             "re-packing, so any textual form of the same address is accepted.",
             "DESIGN.md 4/C20"),
+    "C12": ("ENUM", "exploration",
+            "bounded-exhaustive enumeration of request/answer pairs x result codes on the real decorate/route path",
+            "25 typed request/answer pairs x boundary Result-Codes (all constants, x000/x001/x999 per family; every "
+            "code 0..6999 on two pairs, thorough 0..65535 and 0..6999 on all pairs) x {RC, ER, RC+ER} x Session-Id "
+            "length residues x identifier boundary product, through decorate_answer and the real callback_route of "
+            "an in-process Bromelia; identity fields, E flag vs n // 1000, RC/ER exclusivity, Message Length.",
+            "In-process Worker with a stand-in manager; handler returns a fresh typed answer with E clear; "
+            "multiples of 1000 and answers whose Result-Code was dropped for an Experimental-Result are unconstrained.",
+            "DESIGN.md 4/C12"),
+    "C13": ("HIST", "exploration",
+            "bounded-exhaustive enumeration of route tables x request histories on the real dispatcher",
+            "All 63 non-empty route tables over {S6a, Gx} x {316, 317, 272} registered through @app.route x all "
+            "histories of <= 2 (thorough <= 3 on small and full tables) requests x 6 handler outcomes through the "
+            "real callback_route: exactly the registered handler ran once, exactly one message on that "
+            "application's send queue, UNABLE_TO_COMPLY content when the handler gave no answer.",
+            "Sequential dispatch (concurrency is C14); in-process Worker with a stand-in manager; unregistered "
+            "pairs and non-Exception BaseExceptions are outside the statement.",
+            "DESIGN.md 4/C13"),
     "C17": ("ENUM", "exploration",
             "bounded-exhaustive enumeration of the real predicates against n // 1000",
             "Every code 0..65535 plus 32-bit boundaries and all library constants (thorough: plus a "
